@@ -1370,6 +1370,65 @@ theorem old_mvt_allocates_announced_length :
 
 /-- … the current code asks for at most 8 bytes on it -/
 example : ∀ a ∈ mvtAllocs [0x1a, 0x06, 0x0a, 0x80, 0x80, 0x80, 0x80, 0x20], a ≤ 8 := mvt_alloc_le _
+
+/-! ### second stage: properties of every feature -/
+
+theorem decodePairs_np (keys : List Prim.Bytes) (vals : List Value) : ∀ (tags : List Nat) (acc : Props),
+    decodePairs keys vals tags acc ≠ .panic := by
+  intro tags
+  induction tags using List.rec with
+  | nil => intro acc; simp [decodePairs]
+  | cons k t ih =>
+    intro acc
+    cases t with
+    | nil => simp [decodePairs]
+    | cons v t' =>
+      simp only [decodePairs]
+      split
+      · -- recursion on t' (two elements shorter): strong induction via the length
+        rename_i kk vv _ _
+        have : ∀ (n : Nat) (l : List Nat) (a : Props), l.length ≤ n → decodePairs keys vals l a ≠ .panic := by
+          intro n
+          induction n with
+          | zero => intro l a h; cases l <;> simp_all [decodePairs]
+          | succ n ihn =>
+            intro l a h
+            match l with
+            | [] => simp [decodePairs]
+            | [_] => simp [decodePairs]
+            | x :: y :: r =>
+              simp only [decodePairs]
+              split
+              · exact ihn r _ (by simp at h; omega)
+              · simp
+        exact this _ t' _ (Nat.le_refl _)
+      · simp
+
+/-- **second decoding stage**: decoding the properties of every feature of every layer of arbitrary
+    bytes never panics — an odd tag list or an index outside the key / value table is an error
+    (`PropertyManager::decode_tag_ids`) -/
+theorem mvtProps_no_panic (input : Prim.Bytes) : mvtProps input ≠ .panic := by
+  unfold mvtProps
+  split
+  · rename_i t _
+    dsimp only
+    split
+    · rename_i hany
+      rw [List.any_eq_true] at hany
+      obtain ⟨r, hr, hp⟩ := hany
+      obtain ⟨l, _, hl⟩ := List.mem_flatMap.mp hr
+      unfold layerProps at hl
+      obtain ⟨f, _, hf⟩ := List.mem_map.mp hl
+      have := decodePairs_np l.keys l.vals f.tags []
+      unfold decodeTags at hf
+      rw [← hf] at hp
+      split at hp <;> simp_all
+    · split <;> simp
+  · simp
+  · rename_i hp; exact absurd hp (mvt_no_panic input)
+
+/-- an odd tag list is an error (one feature with tags `[0]`, one key, one value) -/
+example : decodeTags [[0x6b]] [.uint 1] [0] = .err := by decide
 end MvtNP
 
 end VtProps.C19
